@@ -30,6 +30,7 @@ Definition w_type (W : window) (ty : tff_type) : list tval :=
   end.
 
 Section TffEval.
+Variable K : csig.       (* declared constants (Sem/TffSem.v); [] = interpret constants by suffix *)
 Variable W : window.
 Variable FI : ffint.     (* placeholders *)
 Variable I : fpint.      (* true ground atoms *)
@@ -44,9 +45,14 @@ Fixpoint tlookup (te : list (string * tval)) (x : string) : tval :=
   | (y, v) :: te' => if String.eqb x y then v else tlookup te' x
   end.
 Definition econst (n : string) : tval :=
-  match decode n with
-  | Some (x, s) => tval_of_sort s (fclookup FI (mkfconst x s))
-  | None => TS n
+  match clookup K n with
+  | Some CSelf => TS n
+  | Some (CPlace c s) => tval_of_sort s (fclookup FI (mkfconst c s))
+  | None =>
+      match decode n with
+      | Some (x, s) => tval_of_sort s (fclookup FI (mkfconst x s))
+      | None => TS n
+      end
   end.
 Definition estd_fun (f : string) (args : list tval) : tval :=
   match args with
